@@ -152,7 +152,7 @@ def run_parse(prop, tier, seed, scratch):
                   "walked with TypeOf/Get against TLC's tree. Plus every code point in every escape spelling. "
                   "distinct_nontrivial = distinct document texts + distinct code points.", "tlc MC.tla (spec/JsonText.tla) ; vh parse")
     violations = []
-    strfocus = ["%s~%s" % (c, s) for c in STR_ALL if c != "long" for s in SPELLINGS]
+    strfocus = ["%s~%s" % (c, s) for c in STR_ALL if c != "long" for s in SPELLINGS] + ["long~raw", "long~mixed"]
     base = dict(strbasic=["ascii~raw"], strfocus=strfocus, keybasic=["ascii~raw", "dup"], keyfocus=strfocus, numbasic=["int"], numfocus=NUMLIT_ALL,
                 lits=["null", "true", "false"], prekinds=["txt", "NL"], invariants=["TypeOK", "RefAgree"])
     cfgs = [dict(base, name="valid-t7-ws1", maxtoks=8, maxdepth=2, wskinds=["SP", "NL", "TAB", "CR", "MIX"], wsbudget=1)]
